@@ -19,9 +19,11 @@ KF = {
     "sqrt": {"KF_SQRT_ODD_BITLEN": None},
     "mod_add": {"KF_MOD_ADD_CARRY": None},
     "naf": {"KF_NAF_TOP_CARRY": None},
+    "jsf": {"KF_JSF_ZERO_STALE": None},
 }
 # all thirteen findings were repaired in /repo (known_findings.json: fixed): no guard is in force any more
 KF = {k: {} for k in KF}
+# jsf_zero_stale (found afterwards) was repaired in /repo as well (known_findings.json: fixed)
 
 META = {
     "bounds": (
@@ -45,7 +47,11 @@ META = {
         "bn_gcd values 1..255, bn_gcd_bin values 1..31 (thorough); bn_mod_add/sub/mult/square/mult_digit/reduce one-digit operands all values (+ add/sub at full capacity); "
         "bn_mod_exp_digit/bn_mod_exp exponent <= 15 (thorough); bn_mod_inv1/inv2 prime modulus <= 13, bn_mod_inv_bin modulus 13, bn_mod_legendre prime modulus <= 31, "
         "bn_mod_sqrt modulus 7 (quick) and 13 (thorough); bn_calc_naf window 4 values 1..255 (quick), windows 2,3 at full capacity and bn_calc_jsf values 1..255 (thorough); "
-        "bn_combo_column_get window 1..4 x 1..4."),
+        "bn_combo_column_get window 1..4 x 1..4. "
+        "Added clauses: bn_div on a completely filled dividend whose normalisation would lose bits must return EOVERFLOW (1/1, 2/1, 2/2 digits, quick); "
+        "bn_mod_exp with exponent numerically 0 and symbolic stale exponent digits == 1 (quick); bn_add_digit/bn_sub_digit with symbolic canaries in num[count..] "
+        "(nothing written at or above num[count]; all-ones full bn: carry 1) capacities 1..4, widths 8 and 32 quick; bn_calc_jsf with a zero operand "
+        "(stale working copy nondeterministic, exactly sized array) - generated once KF_JSF_ZERO_STALE is removed."),
     "outside": (
         "128-bit digits; operands wider than 4 digits; Barrett reduction, bn_egcd, bn_digit_egcd, bn_mod_inv3, bn_sqrt4, bn_mod_div_mont/bn_mod_inv_mont/bn_mod_div/bn_mod_small; "
         "bn_digit_div__int general path and bn_digit_gcd/_gcd_bin at digit widths >= 16 (no verdict within 600 s on any back end; 8-bit digit gcd is a thorough job); "
@@ -64,7 +70,8 @@ META = {
         "bn_is_even(0) == 0 is taken as specified by the code (guards digits == 0)",
         "big-endian importers: one guard byte in front of the caller buffer (see impexp.c)",
         "layer 4 value bounds (VMAX/MMAX/MFIX/EMAX) are assumptions of the respective jobs and part of their shape text",
-        "known findings are excluded by KF_* assumptions listed in KF of this file; each has findings/<name>.md and a replay",
+        "known findings are excluded by KF_* assumptions listed in KF of this file; each has findings/<name>.md and a replay; in force now: none",
+        "native replay of the JSF jobs dirties the stack with 0xff before the call (jsf_dirty_stack, REPLAY only) so that the uninitialised working copy of a zero operand is deterministic",
     ],
     "harness_functions": ["harness", "bn_make", "bn_value", "v_value", "v_mask", "bn_repr_ok", "o_add", "o_sub", "o_dmul", "uf_mul", "o_div", "o_mod", "o_gcd",
                           "spec_digits", "spec_set", "v_memmove", "v_memcpy", "v_memset", "v_alloc", "v_buf", "hexval", "divides_exactly"],
@@ -334,6 +341,13 @@ def wrap_jobs(tier):
             out.append(Wj("O_BIT", ca, da, min(ca, 2), 1, {"MAXBITS": mb}, "bn_is_bit_set, bn_bit_set (EOVERFLOW outside capacity), bn_assign_2exp, is_pow2/ctz/calc_bits of 2^k", kf=["is_bit_set"], cost=5))
             # multiply by a digit: uninterpreted digit multiply for the general path, exact paths for 0,1,2,3,2^k
             out.append(Wj("O_MULD", ca, da, None, 0, {"STUB_bn_digit_mult__int": None}, "bn_mult_digit: bn*d exact or EOVERFLOW; digit multiply uninterpreted", kf=["mult_digit"], suffix="-uf", cost=8))
+        for ca, da in ([(1, 1), (2, 2), (3, 3), (4, 4), (3, 1), (2, 0)] if maxc >= 4 else [(1, 1), (2, 2), (2, 0)]):
+            for sub in (0, 1):
+                out.append(Wj("O_DIGIT_EXACT", ca, da, None, 0, {"SUBOP": sub}, "bn_%s_digit with symbolic canaries in num[count..]: value, carry/borrow, nothing written at or above num[count]" % ("sub" if sub else "add"),
+                              suffix="-sub" if sub else "-add"))
+            if da == ca:
+                out.append(Wj("O_DIGIT_EXACT", ca, da, None, 0, {"SUBOP": 0, "ALL_ONES": None}, "bn_add_digit on a completely full bn (all digits all-ones): carry 1, value d-1, nothing written at num[count]",
+                              suffix="-add-allones"))
         out.append(Wj("O_INIT", 1, 0, None, 0, None, "bn_init: EINVAL for 0 / > BN_BIT_LEN bits, else count = ceil(bits/W)"))
         # bn_mult / bn_square: uninterpreted digit multiply at every shape; real compiler multiply at small shapes
         mshapes = [(ca, da, db) for ca in range(1, maxc + 1) for da in range(0, ca + 1) for db in range(0, ca + 1)]
@@ -380,8 +394,9 @@ def div_jobs(tier):
         j = J("div-%s%d%d-%d%d-r%d%s" % (tag(8, cc), ca, da, cb, db, cr, ("-" + mode.lower()) if mode else ""), "div.c", d, max(ca, cb) + 1,
               "8-bit digits, dividend capacity %d / %d digits, divisor capacity %d / %d digits, remainder capacity %d%s; all digit values incl. stale digits"
               % (ca, da, cb, db, cr, {"REM_IS_BN": ", remainder aliases the dividend", "REM_NULL": ", no remainder", "D_IS_BN": ", divisor is the dividend object",
-                                      "USE_BN_MOD": ", through bn_mod", None: ""}[mode]),
+                                      "USE_BN_MOD": ", through bn_mod", "NORM_OVF": ", only inputs whose normalisation overflows the dividend capacity", None: ""}[mode]),
               ("bn_div: EINVAL for zero divisor; n == q*d + r, r < d; EOVERFLOW only when normalisation / remainder does not fit" if not mode else
+               "bn_div on a completely filled dividend whose normalisation would lose bits: EOVERFLOW, never success" if mode == "NORM_OVF" else
                "bn_div aliased/partial form == plain call (which is decided against n == q*d + r)"), unwindset=us, cost=cost)
         if tmo:
             j["timeout"] = tmo
@@ -391,6 +406,10 @@ def div_jobs(tier):
     out.append(Dj(2, 1, 2, 2, 2))
     out.append(Dj(3, 2, 3, 3, 1, cost=2))          # n < d, remainder (= n) does not fit its destination -> EOVERFLOW
     out.append(Dj(1, 1, 1, 1, 1, "D_IS_BN", cost=30))
+    # dividend fills its capacity and normalisation would shift bits out: must be refused (cheap: the early return is forced)
+    out.append(Dj(1, 1, 1, 1, 1, "NORM_OVF", cost=20))
+    out.append(Dj(2, 2, 2, 1, 2, "NORM_OVF", cost=40))
+    out.append(Dj(2, 2, 2, 2, 2, "NORM_OVF", cost=40))
     # long division
     out.append(Dj(1, 1, 1, 1, 1, cost=100, tmo=600))
     if full:
@@ -446,6 +465,12 @@ def algo_jobs(tier):
         out.append(Aj("mod%s-c3d1" % names[mop], "A_MODOP", {"MOP": mop, "CA": 3, "DA": 1, "DB": 1, "DM": 1}, [],
                       "capacity 3 digits, bn, n, m one significant digit each (all values)", "bn_mod_%s == the operation on native integers, or EOVERFLOW" % names[mop],
                       kf={1: ["mod_add"], 5: ["mult_digit"]}.get(mop), cost={5: 35}.get(mop, 8)))
+    # exponent numerically zero (digits == 0) with symbolic stale storage: result 1
+    out.append(Aj("modexp-c3d1-e0-stale", "A_MODOP", {"MOP": 8, "EMAX": 0, "CA": 3, "DA": 1, "DB": 0, "DM": 1}, [(4, ("bn_mod_exp",)), (2, ("harness",))],
+                  "capacity 3 digits, base and modulus one digit (all values, m >= 2), exponent = 0 with symbolic stale digits",
+                  "bn_mod_exp(bn, 0, m) == 1 independent of the exponent's stale num[]", cost=5))
+    out.append(Aj("modexp-c3d0-e0-stale", "A_MODOP", {"MOP": 8, "EMAX": 0, "CA": 3, "DA": 0, "DB": 0, "DM": 1}, [(4, ("bn_mod_exp",)), (2, ("harness",))],
+                  "capacity 3 digits, base zero, exponent = 0, both with symbolic stale digits", "bn_mod_exp(0, 0, m) == 1 (x^0 = 1 as the code documents)", cost=2))
     for mop in (1, 2):
         out.append(Aj("mod%s-c1d1-fullcap" % names[mop], "A_MODOP", {"MOP": mop, "CA": 1, "DA": 1, "DB": 1, "DM": 1}, [],
                       "capacity 1 digit fully used", "bn_mod_%s at full capacity" % names[mop], kf={1: ["mod_add"]}.get(mop), cost=3))
@@ -484,6 +509,11 @@ def algo_jobs(tier):
                       "capacity 1 digit fully used, window 3, array of 9", "bn_calc_naf (w=3)", stubs=False, kf=["naf"], cost=80))
         out.append(Aj("jsf-c2d1", "A_JSF", {"NAFSZ": 18, "CA": 2, "DA": 1, "DB": 1}, [(11, ("bn_calc_jsf", "harness"))],
                       "capacity 2 digits, both operands 1..255, array of 18", "bn_calc_jsf: digits in {-1,0,1}, both rows denote their operand, bounds", stubs=False, cost=120))
+    if not KF["jsf"]:   # zero operands (stale num[0] of the working copy symbolic / uninitialised), exactly sized array
+        for da, db in ((0, 1), (1, 0), (0, 0)):
+            out.append(Aj("jsf-c2d%d-d%d-zero" % (da, db), "A_JSF", {"NAFSZ": 18 if (da or db) else 2, "CA": 2, "DA": da, "DB": db}, [(11, ("bn_calc_jsf", "harness"))],
+                          "capacity 2 digits, operand digits %d and %d (zero operand with symbolic stale storage), exactly sized array" % (da, db),
+                          "bn_calc_jsf with a zero operand: digits in {-1,0,1}, both rows denote their operand, no write outside the array", stubs=False, kf=["jsf"], cost=60))
     out.append(Aj("combo-c3d2", "A_COMBO", {"CA": 3, "DA": 2}, [(6, ("bn_combo_column_get", "harness"))],
                   "capacity 3 digits, 2 significant, window 1..4 x count 1..4, offset < 40", "bn_combo_column_get == selected bit column, stale digits not read", stubs=False, cost=4))
     return out
